@@ -355,6 +355,27 @@ func runCluster(r *mon.Report, idx int, rng *rand.Rand) {
 		pct := []string{"10%", "20%", "25%", "33%", "50%", "34%"}[rng.Intn(6)]
 		cfg.Budgets = func(*rand.Rand) []v1.Budget { return []v1.Budget{{Nodes: pct}} }
 	}
+	// second directed family: every node ends up empty; next to an always-active generous budget the pool has a budget
+	// scoped to Empty (and possibly Drifted, never Underutilized) whose window opens a few seconds after the round starts,
+	// i.e. during the 15 s validation wait of the emptiness command
+	window := !directed && rng.Intn(5) == 0
+	var opens time.Time
+	if window {
+		cfg.Scenario.MinPools, cfg.Scenario.MaxPools = 1, 1
+		cfg.OnePodPerNode = true
+		cfg.Rounds = 3
+		cfg.PodsPerRound = 4
+		cfg.PDeletePod = 1.0
+		cfg.PDrift, cfg.PNotReady, cfg.PUninitialized = 0, 0, 0
+		cfg.ConsolidateAfter = []string{"0s"}
+		cfg.Policies = []v1.ConsolidationPolicy{v1.ConsolidationPolicyWhenEmptyOrUnderutilized, v1.ConsolidationPolicyWhenEmpty}
+		opens = base.Add(90 * time.Minute).Truncate(time.Minute)
+		rs := [][]string{{"Empty"}, {"Empty"}, {"Empty", "Drifted"}}[rng.Intn(3)]
+		scoped := map[string]any{"nodes": []string{"0", "0", "1"}[rng.Intn(3)], "reasons": rs,
+			"schedule": fmt.Sprintf("%d %d * * *", opens.Minute(), opens.Hour()), "duration": "10m0s"}
+		js := []map[string]any{{"nodes": "100%"}, scoped}
+		cfg.Budgets = func(*rand.Rand) []v1.Budget { bs, _, _ := decodeBudgets(js); return bs }
+	}
 	d := common.BuildDisruption(rng, cfg)
 	e := d.Env
 	if directed {
@@ -370,6 +391,10 @@ func runCluster(r *mon.Report, idx int, rng *rand.Rand) {
 	}
 	// place the clock relative to the budget boundary region
 	e.Clock.SetTime(base.Add(90*time.Minute + time.Duration(rng.Intn(121)-60)*time.Second))
+	if window {
+		e.Clock.SetTime(opens.Add(-time.Duration(3+rng.Intn(11)) * time.Second))
+		r.Inc("cluster_cases_with_reason_scoped_window_opening_during_validation")
+	}
 	d.RefreshConditions()
 	_ = e.SyncState()
 	poolBudgets := map[string][]oracle.BudgetSpec{}
